@@ -60,7 +60,12 @@ Hypothesis Hw_nodup : NoDup (all_workers c).
 Hypothesis Hf_range : forall p f, In f (wp_facs c p) -> f < nF c.
 (* the class *)
 Hypothesis L_rank : forall t e, t < nT c -> In e (t_inputs c t) -> fst e < nT c /\ rank (fst e) < rank t.
-Hypothesis L_kinds : forall t e, In e (t_inputs c t) -> snd e = FS \/ snd e = SS.
+(* a task with an incoming finish-to-finish or start-to-finish link may have to
+   wait, holding its workers, until the predecessor is done: its workers must be
+   its own -- a worker skilled for it is skilled for no other task *)
+Definition waits (t : nat) : Prop := exists e, In e (t_inputs c t) /\ (snd e = FF \/ snd e = SF).
+Hypothesis L_own : forall t t' w, t < nT c -> t' < nT c -> waits t ->
+  has_wskill c w t = true -> has_wskill c w t' = true -> t' = t.
 Hypothesis L_nofac : forall t, t < nT c -> t_needfac c t = false /\ t_comp c t = None.
 Hypothesis L_worker : forall t, t < nT c -> t_auto c t = false ->
   exists w, In w (all_workers c) /\ has_wskill c w t = true /\ w_targets c w t = true
@@ -73,9 +78,32 @@ Hypothesis L_work : forall t, t < nT c -> (0 <= t_work c t)%Q /\ (0 <= t_progres
 Hypothesis L_abs : forall a, In a (o_abs o) -> a < H.
 Hypothesis L_wabs : forall w a, In a (w_abs c w) -> a < H.
 
-Lemma gate_open_all s t : finish_gate c s t = true.
+Lemma waits_dec t : waits t \/ ~ waits t.
 Proof.
-  unfold finish_gate. apply forallb_forall. intros e He. destruct (L_kinds t e He) as [E|E]; rewrite E; reflexivity.
+  unfold waits. induction (t_inputs c t) as [|e l IH].
+  - right. intros (e & [] & _).
+  - destruct IH as [(e' & Hin & Hk)|Hn]; [left; exists e'; split; [right; exact Hin|exact Hk]|].
+    destruct (snd e) eqn:Ek.
+    + right. intros (e' & [<-|Hin] & Hk); [rewrite Ek in Hk; destruct Hk; discriminate|apply Hn; exists e'; split; assumption].
+    + right. intros (e' & [<-|Hin] & Hk); [rewrite Ek in Hk; destruct Hk; discriminate|apply Hn; exists e'; split; assumption].
+    + left. exists e. split; [left; reflexivity|left; exact Ek].
+    + left. exists e. split; [left; reflexivity|right; exact Ek].
+Qed.
+
+(* the finish gate of a task that never waits is always open *)
+Lemma gate_open_free s t : ~ waits t -> finish_gate c s t = true.
+Proof.
+  intros Hn. unfold finish_gate. apply forallb_forall. intros e He.
+  destruct (snd e) eqn:Ek; try reflexivity; exfalso; apply Hn; exists e; split; [exact He|left; exact Ek|exact He|right; exact Ek].
+Qed.
+
+(* ... and so is the gate of a task whose predecessors are all FINISHED *)
+Lemma gate_open_minimal s t : t < nT c -> (forall t', t' < nT c -> rank t' < rank t -> stof s t' = TFinished) ->
+  finish_gate c s t = true.
+Proof.
+  intros Ht Hmin. unfold finish_gate. apply forallb_forall. intros e He.
+  destruct (L_rank t e Ht He) as [Hr1 Hr2]. pose proof (Hmin (fst e) Hr1 Hr2) as F. unfold stof in F. rewrite F.
+  destruct (snd e); reflexivity.
 Qed.
 
 (* ------------------------------------------------------------- measure *)
@@ -121,13 +149,16 @@ Qed.
 
 (* one task's measure does not grow when its state only advances and its
    remaining work does not grow *)
-Lemma m1_le s s' t : adv (stof s t) (stof s' t) -> (remof s' t <= remof s t)%Q -> m1 s' t <= m1 s t.
+Lemma m1_le s s' t : adv (stof s t) (stof s' t) -> (pos0 (remof s' t) <= pos0 (remof s t))%Q -> m1 s' t <= m1 s t.
 Proof.
   intros Ha Hr. unfold m1. destruct (is_fin (stof s' t)) eqn:E'; [lia|].
   destruct (is_fin (stof s t)) eqn:E.
   - apply is_fin_true in E. rewrite E in Ha. destruct (stof s' t); cbn in *; try contradiction; discriminate.
-  - apply le_n_S. apply need_mono; [exact L_delta|apply pos0_mono; exact Hr].
+  - apply le_n_S. apply need_mono; [exact L_delta|exact Hr].
 Qed.
+
+Lemma pos0_nonneg x : (0 <= pos0 x)%Q.
+Proof. unfold pos0. destruct (Qltb x 0) eqn:E; [lra|apply Qltb_false in E; exact E]. Qed.
 
 (* ... and drops when the task is finished or loses at least delta *)
 Lemma m1_lt_finish s s' t : stof s t <> TFinished -> stof s' t = TFinished -> m1 s' t < m1 s t.
@@ -249,24 +280,11 @@ Qed.
 
 
 (* ------------------------------------------- the invariant through a step *)
-Lemma NN_update' s : NN c s -> forall t, t < nT c -> (0 <= remof (update c o s) t)%Q.
+Lemma working_after_update_pos s t : t < nT c -> finish_gate c (update c o s) t = true ->
+  stof (update c o s) t = TWorking -> (tol <= remof (update c o s) t)%Q.
 Proof.
-  intros Hn t Ht.
-  destruct (update_rem c o s t) as [[E1 E2]|(_ & _ & _ & E4)]; [|rewrite E4; lra].
-  destruct (Hn t Ht) as [Hr|Hw]; [rewrite E1; exact Hr|].
-  assert (Es : stof (update c o s) t = TWorking).
-  { pose proof (proj1 (Step_update c o s) t) as A. rewrite Hw in A.
-    destruct (stof (update c o s) t) eqn:E; cbn in A; try contradiction; [reflexivity|].
-    assert (stof s t = TFinished) by (apply E2; reflexivity). congruence. }
-  destruct (Qltb (remof (update c o s) t) tol) eqn:Ez.
-  - pose proof (update_finish_complete c o s t Ht Es Ez) as Hg. rewrite gate_open_all in Hg. discriminate.
-  - apply Qltb_false in Ez. assert (0 < tol)%Q by reflexivity. lra.
-Qed.
-
-Lemma working_after_update_pos s t : t < nT c -> stof (update c o s) t = TWorking -> (tol <= remof (update c o s) t)%Q.
-Proof.
-  intros Ht Hw. destruct (Qltb (remof (update c o s) t) tol) eqn:Ez; [|apply Qltb_false in Ez; exact Ez].
-  pose proof (update_finish_complete c o s t Ht Hw Ez) as Hg. rewrite gate_open_all in Hg. discriminate.
+  intros Ht Hg Hw. destruct (Qltb (remof (update c o s) t) tol) eqn:Ez; [|apply Qltb_false in Ez; exact Ez].
+  pose proof (update_finish_complete c o s t Ht Hw Ez) as Hg'. rewrite Hg in Hg'. discriminate.
 Qed.
 
 (* __update after the finishing pass: only NONE -> READY, lists untouched *)
@@ -404,20 +422,20 @@ Qed.
 Definition next_head (u : pstate) : pstate :=
   let sr := step_record c o (step_perform c o (step_allocate c o u)) in with_time sr (S (time sr)).
 
-Lemma working_then_update x t : t < nT c -> stof x t = TWorking ->
+Lemma working_then_update x t : t < nT c -> finish_gate c (update c o x) t = true -> stof x t = TWorking ->
   stof (update c o x) t = TFinished
   \/ (stof (update c o x) t = TWorking /\ remof (update c o x) t = remof x t /\ (tol <= remof x t)%Q).
 Proof.
-  intros Ht Hw.
+  intros Ht Hg Hw.
   destruct (update_rem c o x t) as [[E1 E2]|(_ & _ & E3 & _)]; [|left; exact E3].
   pose proof (proj1 (Step_update c o x) t) as A. rewrite Hw in A.
   destruct (stof (update c o x) t) eqn:E; cbn in A; try contradiction; [|left; reflexivity].
   right. split; [reflexivity|]. split; [exact E1|]. rewrite <- E1. apply working_after_update_pos; assumption.
 Qed.
 
-Lemma rem_iteration u t : t < nT c -> (0 <= remof u t)%Q -> (remof (update c o (next_head u)) t <= remof u t)%Q.
+Lemma rem_iteration u t : t < nT c -> (pos0 (remof (update c o (next_head u)) t) <= pos0 (remof u t))%Q.
 Proof.
-  intros Ht Hpos. unfold next_head.
+  intros Ht. unfold next_head.
   set (sa := step_allocate c o u). set (sp := step_perform c o sa).
   set (nx := with_time (step_record c o sp) (S (time (step_record c o sp)))).
   assert (E1 : remof sa t = remof u t) by apply rem_step_allocate.
@@ -426,7 +444,8 @@ Proof.
     destruct ((t <? nT c) && is_working (stof sa t) && (negb (mem (time sa) (o_abs o)) || o_auto_abs o && t_auto c t)); [|lra].
     pose proof (progress_nonneg sa t Ht). lra. }
   assert (E3 : remof nx t = remof sp t) by reflexivity.
-  destruct (update_rem c o nx t) as [[F1 _]|(_ & _ & _ & F4)]; [rewrite F1, E3, <- E1; exact E2|rewrite F4; exact Hpos].
+  destruct (update_rem c o nx t) as [[F1 _]|(_ & _ & _ & F4)]; [apply pos0_mono; rewrite F1, E3, <- E1; exact E2|].
+  rewrite F4. change (pos0 0) with 0%Q. apply pos0_nonneg.
 Qed.
 
 Lemma adv_iteration u t : adv (stof u t) (stof (update c o (next_head u)) t).
@@ -442,20 +461,21 @@ Proof.
   apply B.
 Qed.
 
-Lemma M_iteration_le u : (forall t, t < nT c -> (0 <= remof u t)%Q) -> M (update c o (next_head u)) <= M u.
+Lemma M_iteration_le u : M (update c o (next_head u)) <= M u.
 Proof.
-  intros Hpos. unfold M. apply list_sum_le. intros t Ht. apply in_seq in Ht.
-  apply m1_le; [apply adv_iteration|apply rem_iteration; [lia|apply Hpos; lia]].
+  unfold M. apply list_sum_le. intros t Ht. apply in_seq in Ht.
+  apply m1_le; [apply adv_iteration|apply rem_iteration; lia].
 Qed.
 
 (* a task that is WORKING after the allocation phase of a post-horizon step,
    automatic or with a worker, brings the measure down *)
-Lemma productive_task u t : LQ u -> H <= time u -> (forall x, x < nT c -> (0 <= remof u x)%Q) -> t < nT c ->
+Lemma productive_task u t : LQ u -> H <= time u -> t < nT c ->
+  finish_gate c (update c o (next_head u)) t = true ->
   stof (step_allocate c o u) t = TWorking ->
   (t_auto c t = true \/ aw (td (step_allocate c o u) t) <> []) ->
   m1 (update c o (next_head u)) t < m1 u t.
 Proof.
-  intros HL Ht0 Hpos Ht Hw Hor.
+  intros HL Ht0 Ht Hgate Hw Hor.
   destruct (LQ_step_allocate u HL) as [(QA & WA & SA) RA].
   set (sa := step_allocate c o u) in *. set (sp := step_perform c o sa).
   assert (Etsa : time sa = time u) by apply time_step_allocate.
@@ -482,7 +502,7 @@ Proof.
   unfold next_head. fold sa. fold sp.
   set (nx := with_time (step_record c o sp) (S (time (step_record c o sp)))).
   assert (Hwnx : stof nx t = TWorking) by exact Hwsp.
-  destruct (working_then_update nx t Ht Hwnx) as [F|(W & R1 & R2)].
+  destruct (working_then_update nx t Ht Hgate Hwnx) as [F|(W & R1 & R2)].
   - apply m1_lt_finish; assumption.
   - apply (m1_lt_progress u _ t (progress c sa t) Hnf Hp).
     + rewrite R1. change (remof nx t) with (remof sp t). rewrite Erem, Esa. apply Qle_refl.
@@ -537,11 +557,13 @@ Proof.
 Qed.
 
 Lemma somebody_works h : let u := update c o h in LQ u -> H <= time u -> all_finished c u = false ->
-  exists t, t < nT c /\ stof (step_allocate c o u) t = TWorking /\ (t_auto c t = true \/ aw (td (step_allocate c o u) t) <> []).
+  exists t, t < nT c /\ stof (step_allocate c o u) t = TWorking /\ (t_auto c t = true \/ aw (td (step_allocate c o u) t) <> [])
+            /\ (~ waits t \/ forall t', t' < nT c -> rank t' < rank t -> stof u t' = TFinished).
 Proof.
   intros u HL Ht0 Hnf.
   destruct (exists_minimal u Hnf) as (t & Ht & Hn & Hmin).
   assert (Hwk : negb (mem (time u) (o_abs o)) = true) by (apply working_time; exact Ht0).
+  destruct (LQ_step_allocate u HL) as [(_ & _ & SA) _].
   destruct HL as ((AA & SP & NW & RC) & WH & SK).
   (* the minimal unfinished task is READY or WORKING *)
   assert (Hst : stof u t = TReady \/ stof u t = TWorking).
@@ -550,11 +572,11 @@ Proof.
     - exfalso. apply (NW t Ht Es).
     - congruence. }
   destruct (t_auto c t) eqn:Ea.
-  { exists t. split; [exact Ht|]. split; [|left; exact Ea].
+  { exists t. split; [exact Ht|]. split; [|split; [left; exact Ea|right; exact Hmin]].
     destruct Hst as [Hr|Hw]; [|apply working_step_allocate; exact Hw].
     apply C06_auto_never_waits; try assumption; [apply (L_nofac t Ht)|rewrite Hwk; reflexivity]. }
   destruct Hst as [Hr|Hw].
-  2:{ exists t. split; [exact Ht|]. split; [apply working_step_allocate; exact Hw|right].
+  2:{ exists t. split; [exact Ht|]. split; [apply working_step_allocate; exact Hw|split; [right|right; exact Hmin]].
       pose proof (WH t Ht Ea Hw) as Hne. intros E. apply Hne.
       destruct (aw (td u t)) as [|a l] eqn:Eaw; [reflexivity|exfalso].
       assert (Hin : In a (aw (td (step_allocate c o u) t))).
@@ -583,7 +605,13 @@ Proof.
       rewrite Etg. reflexivity.
     - destruct (cw_target c s2 x && is_ready TWorking); reflexivity. }
   destruct (aw (td s2 t)) as [|a l] eqn:Eaw.
-  2:{ exists t. split; [exact Ht|]. destruct (Holder t a Ht ltac:(rewrite Eaw; left; reflexivity)) as [W1 W2]. split; [exact W1|right; exact W2]. }
+  2:{ exists t. split; [exact Ht|]. destruct (Holder t a Ht ltac:(rewrite Eaw; left; reflexivity)) as [W1 W2]. split; [exact W1|split; [right; exact W2|right; exact Hmin]]. }
+  (* whoever holds a worker skilled for t either never waits or is t itself *)
+  assert (Other : forall x w, x < nT c -> In w (aw (td s2 x)) -> has_wskill c w t = true ->
+            ~ waits x \/ forall t', t' < nT c -> rank t' < rank x -> stof u t' = TFinished).
+  { intros x w Hx Hin Hsk. destruct (waits_dec x) as [Hwx|Hnx]; [|left; exact Hnx]. right.
+    assert (Hskx : has_wskill c w x = true) by (apply (SA x w Hx); rewrite Hawsa; exact Hin).
+    rewrite <- (L_own x t w Hx Ht Hwx Hskx Hsk). exact Hmin. }
   (* t got nobody: look at its eligible worker *)
   destruct (L_worker t Ht Ea) as (w & Hw & Hs & Htg & Hfix).
   assert (Hwr : w < nW c) by (apply Hw_range; exact Hw).
@@ -605,62 +633,58 @@ Proof.
     + (* it received a task in this step *)
       destruct (asg (wd s2 w)) as [|x r] eqn:E2; [rewrite Easg1 in Ediff; congruence|].
       destruct (a_w2 c s2 A2 w x Hwr ltac:(rewrite E2; left; reflexivity)) as [Hx Hin].
-      exists x. split; [exact Hx|]. destruct (Holder x w Hx Hin) as [W1 W2]. split; [exact W1|right; exact W2].
+      exists x. split; [exact Hx|]. destruct (Holder x w Hx Hin) as [W1 W2]. split; [exact W1|split; [right; exact W2|apply (Other x w Hx Hin Hs)]].
   - (* busy before: its task is WORKING (READY tasks hold nothing at a loop head) *)
     destruct (a_w2 c u AA w x Hwr ltac:(rewrite Eau; left; reflexivity)) as [Hx Hin].
     assert (Hin2 : In w (aw (td s2 x))) by (apply aw_allocate_incl; unfold s1; rewrite td_absence_update; exact Hin).
-    exists x. split; [exact Hx|]. destruct (Holder x w Hx Hin2) as [W1 W2]. split; [exact W1|right; exact W2].
+    exists x. split; [exact Hx|]. destruct (Holder x w Hx Hin2) as [W1 W2]. split; [exact W1|split; [right; exact W2|apply (Other x w Hx Hin2 Hs)]].
 Qed.
 
 
 (* ------------------------------------------------------------ the run *)
-Lemma NN_after_update h : NN c h -> NN c (update c o h).
-Proof. intros Hn t Ht. left. apply NN_update'; assumption. Qed.
-
-Lemma next_head_inv u : LQ u -> NN c u -> LQ (next_head u) /\ NN c (next_head u).
+Lemma next_head_inv u : LQ u -> LQ (next_head u).
 Proof.
-  intros HL HN. unfold next_head.
+  intros HL. unfold next_head.
   destruct (LQ_step_allocate u HL) as [LA _].
   pose proof (LQ_step_perform _ LA) as LP.
-  split.
-  - apply (LQ_td (step_perform c o (step_allocate c o u))); try reflexivity. exact LP.
-  - apply (NN_td c (step_perform c o (step_allocate c o u))); [reflexivity|].
-    apply NN_step_perform. apply NN_step_allocate. exact HN.
+  apply (LQ_td (step_perform c o (step_allocate c o u))); try reflexivity. exact LP.
 Qed.
 
-Lemma M_iteration_lt h : let u := update c o h in LQ u -> (forall t, t < nT c -> (0 <= remof u t)%Q) ->
+Lemma M_iteration_lt h : let u := update c o h in LQ u ->
   H <= time u -> all_finished c u = false -> M (update c o (next_head u)) < M u.
 Proof.
-  intros u HL Hpos Ht0 Hnf.
-  destruct (somebody_works h HL Ht0 Hnf) as (t & Ht & Hw & Hor).
+  intros u HL Ht0 Hnf.
+  destruct (somebody_works h HL Ht0 Hnf) as (t & Ht & Hw & Hor & Hg).
   unfold M. apply (list_sum_lt _ _ _ t); [apply in_seq; lia| |].
-  - apply (productive_task u t HL Ht0 Hpos Ht Hw Hor).
-  - intros x Hx. apply in_seq in Hx. apply m1_le; [apply adv_iteration|apply rem_iteration; [lia|apply Hpos; lia]].
+  - apply (productive_task u t HL Ht0 Ht); [|exact Hw|exact Hor].
+    destruct Hg as [Hn|Hmin]; [apply gate_open_free; exact Hn|].
+    apply gate_open_minimal; [exact Ht|]. intros t' Ht' Hr.
+    pose proof (adv_iteration u t') as A. pose proof (Hmin t' Ht' Hr) as F. subst u. rewrite F in A.
+    destruct (stof (update c o (next_head (update c o h))) t'); cbn in A; try contradiction; reflexivity.
+  - intros x Hx. apply in_seq in Hx. apply m1_le; [apply adv_iteration|apply rem_iteration; lia].
 Qed.
 
-Theorem trace_live : forall s tr sf, trace_from c o s tr sf -> LQ s -> NN c s ->
+Theorem trace_live : forall s tr sf, trace_from c o s tr sf -> LQ s ->
   (H - time s) + M (update c o s) + time s <= o_max_time o -> status sf = StSuccess.
 Proof.
-  induction 1 as [s Ha|s Ha Hm|s rest sf Ha Hm s1 sa sp sr Hrest IH]; intros HL HN Hb.
+  induction 1 as [s Ha|s Ha Hm|s rest sf Ha Hm s1 sa sp sr Hrest IH]; intros HL Hb.
   - reflexivity.
   - exfalso. rewrite (time_update c o s) in Hm.
     assert (Hz : M (update c o s) = 0) by lia.
     rewrite (M_zero_finished _ Hz) in Ha. discriminate.
   - assert (HLu : LQ s1) by (apply LQ_update; exact HL).
-    assert (HNu : NN c s1) by (apply NN_after_update; exact HN).
-    assert (Hpos : forall t, t < nT c -> (0 <= remof s1 t)%Q) by (intros t Ht; apply NN_update'; assumption).
-    destruct (next_head_inv s1 HLu HNu) as [HLn HNn].
+    pose proof (next_head_inv s1 HLu) as HLn.
     change (with_time sr (S (time sr))) with (next_head s1) in *.
     assert (Etn : time (next_head s1) = S (time s)).
     { unfold next_head. cbn [time with_time]. rewrite (time_step_record c o), (time_step_perform c o), (time_step_allocate c o).
       unfold s1. rewrite (time_update c o s). reflexivity. }
-    apply IH; [exact HLn|exact HNn|]. rewrite Etn.
+    apply IH; [exact HLn|]. rewrite Etn.
     assert (Ets1 : time s1 = time s) by apply (time_update c o s).
     change (update c o s) with s1 in Hb.
     destruct (Nat.lt_ge_cases (time s) H) as [Hlt|Hge].
-    + pose proof (M_iteration_le s1 Hpos). lia.
+    + pose proof (M_iteration_le s1). lia.
     + assert (Hge' : H <= time (update c o s)) by (rewrite (time_update c o s); exact Hge).
-      pose proof (M_iteration_lt s HLu Hpos Hge' Ha) as Hlt. cbv zeta in Hlt. change (update c o s) with s1 in Hlt. lia.
+      pose proof (M_iteration_lt s HLu Hge' Ha) as Hlt. cbv zeta in Hlt. change (update c o s) with s1 in Hlt. lia.
 Qed.
 
 (* an explicit bound on the measure of the first loop state *)
@@ -690,8 +714,7 @@ Proof.
   { split; [apply Q0_initialize; exact Hs|]. split.
     - intros t Ht _ Hw. exfalso. destruct (initialize_lists c o s t Hs Ht) as (_ & _ & _ & N). apply N. exact Hw.
     - intros t w Ht Hin. destruct (initialize_lists c o s t Hs Ht) as (Ea & _). rewrite Ea in Hin. destruct Hin. }
-  assert (HN : NN c (initialize c o s)) by (apply (NN_initialize c L_work o s Hs)).
-  apply (trace_live _ _ _ Htr HL HN).
+  apply (trace_live _ _ _ Htr HL).
   assert (Et : time (initialize c o s) = 0) by (apply (logs_initialize_clear c o s Hl)).
   rewrite Et. pose proof (M_initial s Hs). lia.
 Qed.
